@@ -63,10 +63,10 @@ def one_point(args):
         # the same point on a RE-USED object: solved before for another refrigerant at another operating point, sets requested
         other = "ammonia" if fluid != "ammonia" else "R134a"
         c2 = SimpleHeatPumpCycle()
-        c2.solve(Te=Te - 7.0, Tc=Te + 21.0, dT_sh=2.0, dT_sc=1.0, eta_comp=0.8, refrigerant=other, ihx_gas_dt=0.0, Q_h_total=3.0 * Q)
+        c2.solve(Te=5.0, Tc=40.0, dT_sh=2.0, dT_sc=1.0, eta_comp=0.8, refrigerant=other, ihx_gas_dt=0.0, Q_h_total=3.0 * Q)
         c2.build_stream_collection(include_cond=True, include_evap=(idx % 2 == 0))
-        if idx % 3 == 0:
-            c2.solve(Te=Te, Tc=Tc, dT_sh=sh, dT_sc=sc, eta_comp=eta, refrigerant=other, ihx_gas_dt=0.0, Q_h_total=Q)
+        if idx % 3 == 0:      # ... and once more at another point of the same refrigerant
+            c2.solve(Te=Te - 2.0, Tc=Tc + 1.0, dT_sh=sh, dT_sc=0.0, eta_comp=0.6, refrigerant=fluid, ihx_gas_dt=0.0, Q_h_total=2.0 * Q)
         c2.solve(Te=Te, Tc=Tc, dT_sh=sh, dT_sc=sc, eta_comp=eta, refrigerant=fluid, ihx_gas_dt=0.0, Q_h_total=Q)
         col = c2.build_stream_collection(include_cond=True, include_evap=True)
         hot = [s for s in col._streams.values() if s.name.startswith("Condenser")]
@@ -102,12 +102,23 @@ def grid(tier, rnd):
                 for sh, sc in ((0.0, 0.0), (5.0, 3.0), (0.0, 8.0)):
                     for eta in ((0.7, 1.0) if tier == "quick" else (0.5, 0.7, 0.9, 1.0)):
                         pts.append((f, Te, lift, sh, sc, eta, rnd.choice([1.0, 42.0, 750.0])))
+    # seeded random operating points over pure fluids: evaporating level anywhere between the triple point (+5 K, >= -40 C) and
+    # 27 K below the critical temperature, lifts from 3 K, superheat / subcooling up to 20 / 15 K, efficiencies down to 0.3
+    from CoolProp.CoolProp import PropsSI
+    pure = ["water", "ammonia", "R134a", "R245fa", "n-Pentane", "Isobutane", "CO2", "R1234yf", "Propane", "R32", "Toluene", "Ethanol", "R600a"]
+    for _ in range(60 if tier == "quick" else 1500):
+        f = rnd.choice(pure)
+        lo = max(PropsSI("Ttriple", f) - 273.15 + 5, -40.0); hi = PropsSI("Tcrit", f) - 273.15 - 15
+        Te = round(rnd.uniform(lo, hi - 12), 1)
+        lift = round(rnd.uniform(3, min(80, hi - Te)), 1)
+        pts.append((f, Te, lift, float(rnd.choice([0, 0, 2, 5, 10, 20])), float(rnd.choice([0, 0, 3, 8, 15])),
+                    rnd.choice([0.3, 0.5, 0.7, 0.9, 1.0]), rnd.choice([1.0, 42.0, 750.0])))
     return [(i,) + p for i, p in enumerate(pts)]
 
 
 def check(prop, tier, run: Run, replay_case=None):
     run.assumptions += ["refrigerant properties and saturation pressures come from CoolProp (the implementation's own source); the specification states the laws, it does not recompute properties",
-                        "cycles without internal heat exchanger (ihx_gas_dt = 0); lifts of at least 10 K"]
+                        "cycles without internal heat exchanger (ihx_gas_dt = 0); pure fluids only (for zeotropic blends such as R410A dew and bubble pressure differ and 'the saturation pressure' of a temperature is not defined by the statement)"]
     r = _tlc(dict(HasTrace=False, MaxReq=5, EvapSharesMdot=False, BackendCached=False), invs=["C18_OrderIndependent", "C18_BackendIsRequested"])
     run.add_tlc(r, "request-order machine")
     if r.violated:
